@@ -78,6 +78,10 @@ class Obligation:
         self.inputs = {}          # name -> term, for model extraction
 
 
+def depth_ok(self):
+    return getattr(self, "_named_depth", 0) < 2
+
+
 class CoreMixin:
     def init_core(self, ctab):
         self.ctab = ctab
@@ -221,6 +225,20 @@ class CoreMixin:
         fact = f"(= (class_of (- {n})) {self.ctab.cid(type(o))})"
         if fact not in self.globals_assumed:
             self.globals_assumed.append(fact)
+            # attribute values of an immutable-by-convention module singleton (UNBOUND_PROPERTY): what it holds at import
+            if type(o).__module__.startswith("statham") and type(o).__name__ in ("_Property",) and depth_ok(self):
+                self._named_depth = getattr(self, "_named_depth", 0) + 1
+                try:
+                    for a, val in vars(o).items():
+                        try:
+                            vt = const_term(val, self.ctab)
+                        except OutOfSubset:
+                            vt = asV(self.named_object(val)) if type(val).__module__.startswith("statham") else None
+                        if vt is not None:
+                            self.globals_assumed.append(Eq(f"({self.attr_fun(a)} {term})", vt))
+                    self.trusted_used.add(f"module singleton {type(o).__name__} object keeps the attribute values it has at import time")
+                finally:
+                    self._named_depth -= 1
         return Val(term, kind="obj", cls=type(o))
 
     def escape(self, so):
@@ -240,7 +258,10 @@ class CoreMixin:
                 t = asV(self.lift(val))
             except OutOfSubset:
                 continue
-            f = Eq(f"({self.attr_fun(a)} {so.term})", t)
+            if a == "__dictview__":
+                f = Eq(f"({self.declare_fun('obj_dict', ['V'], 'V')} {so.term})", t)
+            else:
+                f = Eq(f"({self.attr_fun(a)} {so.term})", t)
             if f not in self.escape_facts:
                 self.escape_facts.append(f)
         return Val(so.term, kind="obj", cls=so.cls, fresh=TRUE)
